@@ -257,6 +257,17 @@ func driver(a []string) int {
 		}
 	}
 
+	// race reports of the pinned test suite run under the detector by the check script
+	if pfx := os.Getenv("VERIF_PINNED_RACE"); pfx != "" && spec.Race {
+		pv := raceReports(filepath.Dir(pfx), filepath.Base(pfx), -1, spec)
+		for i := range pv {
+			pv[i].Name = "pinned-suite-under-race"
+		}
+		viols = append(viols, pv...)
+		if n, err := strconv.Atoi(os.Getenv("VERIF_PINNED_RACE_RUNS")); err == nil {
+			counters["pinned_suite_runs_under_race"] += int64(n)
+		}
+	}
 	// known findings
 	var kf struct {
 		Findings []finding `json:"findings"`
@@ -294,6 +305,9 @@ func driver(a []string) int {
 		if written < 10 {
 			written++
 			path := filepath.Join(replayDir, fmt.Sprintf("%s-%s-s%d-w%d-c%d.json", prop, tier, seed, v.Worker, v.Case))
+			if v.Case < 0 {
+				path = filepath.Join(replayDir, fmt.Sprintf("%s-%s-s%d-w%d-report%d.json", prop, tier, seed, v.Worker, written))
+			}
 			rp := map[string]any{"property": prop, "tier": tier, "seed": seed, "worker": v.Worker, "workers": nw, "case": v.Case, "name": v.Name,
 				"params": v.Params, "violations": v.Violations, "events": v.Events, "stderr": v.Stderr}
 			b, _ := json.MarshalIndent(rp, "", " ")
